@@ -80,7 +80,9 @@ impl Vm {
     ) -> ParseResult<Box<ParserState<'a, &'a str>>> {
         if let Some(ref listener) = self.listener {
             if listener(rule.to_owned(), state.position()) {
-                return Err(ParserState::new(state.position().line_of()));
+                // Hand back the state we were given: the enclosing combinators of the aborted
+                // parse restore and index *this* state's token queue and stack.
+                return Err(state);
             }
         }
         // A rule defined by the grammar takes precedence over a built-in of the same name, as in
